@@ -403,7 +403,7 @@ class Run:
         ms = []
         seen = set()
         for rep in reports:
-            frames = re.findall(r"github\.com/antchfx/xpath\.([^\s(]+(?:\([^)]*\))?[^\s]*)\(\)\n\s+(\S+:\d+)", rep)
+            frames = re.findall(r"github\.com/antchfx/xpath\.(\S+)\(\)\n\s+(\S+:\d+)", rep)
             if not frames:
                 continue   # a race outside the package under test is not its defect
             key = frames[0]
